@@ -23,6 +23,14 @@
      Completeness   Verify(Root(kv), k, Prove(k)) = kv[k]   (absent keys at every divergence depth)
      Soundness      Verify on a tampered proof = error or the TRUE value, never a false value/absence.
 
+   Proof SETS (section "shared proof sets" below; properties and configs in ProofSet.tla): the code never hands
+   the result of ONE Prove call to a verifier - rpc/v{8,9,10}/storage.go and GetRangeProof fill one ProofNodeSet
+   per trie with one Prove call per requested key, in request order.  The identity of a node in that set is its
+   HASH, not its position, and the value alphabet allows EQUAL values under different keys, so equal sub-tries
+   at different positions (same nodes below, different edges above) exist in the small model.
+     SharedSetComplete   for every request (ordered list of distinct keys, present and absent) EVERY key of the
+                         request verifies against the accumulated set and yields its value / absence.
+
    Switches (FALSE/TRUE = the code as it is / repaired), each a confirmed deviation of the code:
      EmptyTrieVerifies   code: both verifiers answer "proof node not found" for the empty trie
      CheckValueDepth     code (trie2): a child TYPED as value ends the walk at any depth, so a node whose
@@ -78,6 +86,68 @@ Prove(m, impl, k, cached) ==
 Has(pf, h) == \E i \in 1..Len(pf) : pf[i].key = h
 \* OrderedSet.Put on an existing key replaces the value: the LAST entry of a key is the one found
 Lookup(pf, h) == pf[CHOOSE i \in 1..Len(pf) : pf[i].key = h /\ \A j \in (i + 1)..Len(pf) : pf[j].key # h].n
+
+----------------------------------------------------------------------------
+(* Shared proof sets.
+
+   rpc/v10/storage.go getClassProof / getContractProofWith(Deprecated)Trie / getContractStorageProof (v8, v9
+   alike) and both GetRangeProof: `set := NewProofNodeSet(); for _, key := range keys { t.Prove(&key, set) }`.
+   The set is utils.OrderedSet: hash -> node in insertion order; Put on a hash that is present REPLACES the node
+   in place.  SharedSet(m, impl, req, cached, mut) is the set after the Prove calls of the request `req` (a
+   sequence of keys), each call putting the nodes of ProvePath top-down.
+
+   `mut` says how a Prove call treats what EARLIER calls left in the set.  "none" is the code as it is (Prove
+   never reads the set).  The others are the designs a multi-key "optimisation" arrives at when it takes the
+   hash of a node for its position; each is an expected-violation config of ProofSet.tla:
+     "skip-known-child"   a node whose CHILD hash the set already holds is not put: "an earlier call went
+                          through the node below, so it went through this one" (legacy: the storage node whose
+                          binary part is in the set is skipped together with its edge).  Wrong when the trie
+                          holds two equal sub-tries below different edges.
+     "stop-at-known"      the walk ends at the first node the set already holds: "the rest of the path is
+                          there" (a visited-set shared between the calls).  Wrong as soon as two keys part
+                          below a common node.
+     "key-by-child"       an edge is filed under the hash of its child: the identity of a node is the sub-trie
+                          below it.  Loses the edge to the binary node filed under the same hash. *)
+Muts == {"none", "skip-known-child", "stop-at-known", "key-by-child"}
+SetHas(set, h) == \E i \in 1..Len(set) : set[i].key = h
+SetPut(set, h, n) ==
+  IF SetHas(set, h) THEN [i \in 1..Len(set) |-> IF set[i].key = h THEN [key |-> h, n |-> n] ELSE set[i]]
+  ELSE Append(set, [key |-> h, n |-> n])
+RECURSIVE PutNodes(_, _, _, _)
+PutNodes(set, ns, i, mut) ==
+  IF i > Len(ns) THEN set
+  ELSE LET n == ns[i]
+           h == NodeHash(n) IN
+       IF mut = "stop-at-known" /\ SetHas(set, h) THEN set
+       ELSE IF mut = "skip-known-child" /\ n.t = "edge" /\ SetHas(set, n.c.h) THEN PutNodes(set, ns, i + 1, mut)
+       ELSE PutNodes(SetPut(set, IF mut = "key-by-child" /\ n.t = "edge" THEN n.c.h ELSE h, n), ns, i + 1, mut)
+\* one more Prove(k) call on the set
+ProveInto(set, m, impl, k, cached, mut) ==
+  LET ns == ProvePath(m, impl, k, <<>>) IN
+  PutNodes(set, [i \in 1..Len(ns) |-> WithCache(ns[i], impl, cached)], 1, mut)
+RECURSIVE ProveReq(_, _, _, _, _, _, _)
+ProveReq(set, m, impl, req, i, cached, mut) ==
+  IF i > Len(req) THEN set
+  ELSE ProveReq(ProveInto(set, m, impl, req[i], cached, mut), m, impl, req, i + 1, cached, mut)
+SharedSet(m, impl, req, cached, mut) == ProveReq(<<>>, m, impl, req, 1, cached, mut)
+\* the same with the node sequences of the single calls given (paths[k] = the nodes Prove(k) collects): lets a
+\* property evaluate ProvePath once per key instead of once per request
+RECURSIVE AccumulateFrom(_, _, _, _, _)
+AccumulateFrom(set, paths, req, i, mut) ==
+  IF i > Len(req) THEN set ELSE AccumulateFrom(PutNodes(set, paths[req[i]], 1, mut), paths, req, i + 1, mut)
+Accumulate(paths, req, mut) == AccumulateFrom(<<>>, paths, req, 1, mut)
+SetKeys(set) == {set[i].key : i \in 1..Len(set)}
+
+\* two equal sub-tries (a binary node on top) at different positions, reached through different edges: the
+\* shape on which "the hash of a node" and "the position of a node" part
+EdgeInto(m, q) ==      \* the edge node of the canonical trie that ends at position q (<<>> = none: q hangs directly under a binary node / is the root)
+  LET ups == {n \in 0..(Len(q) - 1) : Cardinality({x \in Bits : Under(PresentKeys(m), Append(Take(q, n), x)) # {}}) = 2}
+      from == IF ups = {} THEN 0 ELSE 1 + (CHOOSE n \in ups : \A x \in ups : x <= n) IN
+  Drop(q, from)
+Twins(m) == {pq \in DensePaths(m) \X DensePaths(m) :
+               /\ pq[1] # pq[2] /\ Len(pq[1]) = Len(pq[2]) /\ Len(pq[1]) < H
+               /\ SubRoot(m, pq[1]).t = "bin" /\ SubRoot(m, pq[1]) = SubRoot(m, pq[2])
+               /\ EdgeInto(m, pq[1]) # EdgeInto(m, pq[2])}
 
 ----------------------------------------------------------------------------
 (* Verify *)
